@@ -1174,8 +1174,10 @@ class Interp:
             n0 = len(st.pc)
             base = st.store
             outs = list(self.run(name, args, st.fork(), tenv, depth))
+            aux0 = dict(st.aux)
             pure = len(outs) > 1 and all(not is_abnormal(rv) and z3.is_expr(rv) for _, rv in outs) and \
-                all(s_i.store.get(a) is v for s_i, _ in outs for a, v in base.items())
+                all(s_i.store.get(a) is v for s_i, _ in outs for a, v in base.items()) and \
+                all(len(s_i.aux) == len(aux0) and all(s_i.aux.get(k) is v for k, v in aux0.items()) for s_i, _ in outs)
             if not pure:
                 yield from outs
                 return
